@@ -3,6 +3,7 @@ import RisorModel.C20.Model
 import RisorModel.C01.PrattOracle
 import RisorModel.C20.ParseNewline
 import RisorModel.C20.Bridge
+import RisorModel.C20.Stmt
 /-! Line-protocol front end of the C20 model (requests after the leading `C20` field).
 
   lex  <src-utf8-hex>                      → ok TAB tok;tok;…   tok = kindhex,lithex,sChar,sLine,sCol,sLS,eChar,eLine,eCol,eLS
@@ -39,6 +40,8 @@ import RisorModel.C20.Bridge
        render:    `same` when `renderNLTop (Layout.ofLists nls commas) tree` (the object of
                   `parse_newline_invariant`) equals the token list, otherwise the hex of Lean's
                   rendering as text; `-` without tree or layout
+  stmt <src-utf8-hex>                      → ok TAB <tree|none|lexerror> TAB ntokens: the statement-level parser model of Stmt.lean
+                                             (`parseProgram` on `lexTokens src`; tree in the harness's S-expression format, showStmt)
   bridge <src-utf8-hex> <tree|-> <gaps|->
        the lexer/parser bridge of Bridge.lean (theorems: BridgeProps.lean)
        src:   a source text (the harness's own rendering of the tree)
@@ -288,7 +291,52 @@ def handleBridge (srcField treeField gapsField : String) : String :=
                 | some gs => toHexField (utf8s (spellWith r gs)) ++ "\t" ++ b (gs.all Gap.ok)
             "ok\t" ++ toks ++ "\t" ++ toHexField (utf8s text) ++ "\t" ++ flags ++ "\t" ++ lay
 
+/-! ### `stmt`: the statement-level parser model on the lexer machine's tokens -/
+
+open Risor.C20.St in
+def aopText : AOp → String
+  | .set => "=" | .add => "+=" | .sub => "-=" | .mul => "*=" | .div => "/="
+
+open Risor.C20.St Risor.C01.Pratt in
+mutual
+/-- same S-expression format as the harness's `Sexp` (an `else if` is printed as the block holding
+    the nested `if`, which is how the real parser stores it) -/
+def showStmt : Stmt → String
+  | .expr e => "(expr " ++ showExpr e ++ ")"
+  | .var x e => "(var s:" ++ hx x ++ " " ++ showExpr e ++ ")"
+  | .decl x e => "(decl s:" ++ hx x ++ " " ++ showExpr e ++ ")"
+  | .assign op x e => "(assign s:" ++ hx (aopText op) ++ " (id s:" ++ hx x ++ ") " ++ showExpr e ++ ")"
+  | .ret e => "(ret " ++ showExpr e ++ ")"
+  | .ret0 => "(ret0)"
+  | .brk => "(break)"
+  | .cont => "(continue)"
+  | .ifS c thn els => "(if " ++ showExpr c ++ " (blk" ++ showBlock thn ++ ") " ++ showElse els ++ ")"
+def showBlock : Block → String
+  | .nil => ""
+  | .cons s b => " " ++ showStmt s ++ showBlock b
+def showElse : Else → String
+  | .none => "(none)"
+  | .block b => "(blk" ++ showBlock b ++ ")"
+  | .elif c thn els => "(blk (if " ++ showExpr c ++ " (blk" ++ showBlock thn ++ ") " ++ showElse els ++ "))"
+end
+
+/-- `stmt <src-hex>` → `ok <tree|none> <number of tokens>` -/
+def handleStmt (srcField : String) : String :=
+  match srcOf srcField with
+  | none => "error\tbad-hex"
+  | some src =>
+    if unsupported (lexAll src) then "unsupported\tnon-ASCII rune outside strings and comments"
+    else
+      match lexTokens src with
+      | none => "ok\tlexerror\t0"
+      | some ts =>
+        let fuel := 3 * ts.length + 20
+        match Risor.C20.St.parseProgram fuel ts with
+        | some b => "ok\t(blk" ++ showBlock b ++ ")\t" ++ toString ts.length
+        | none => "ok\tnone\t" ++ toString ts.length
+
 def handle : List String → String
+  | ["stmt", src] => handleStmt src
   | ["bridge", src, tree, gaps] => handleBridge src tree gaps
   | ["parsenl", toks, tree, nls, commas] => handleParseNl toks tree nls commas
   | ["gap", pre, cm, rest] => handleGap pre cm rest
